@@ -223,6 +223,170 @@ def splitS (branches : List (Stage α)) (bufsize : Option Nat) (s : Strm α) : S
       if s.vals.isEmpty && s.term.isNone then runBranches branches []   -- `flow_was_empty`
       else splitGo (runBranches branches) b s.term (s.vals.length + 1) s.vals
 
+/-! ## elements that are run again: `RunIf` runs its sequence once per selected value, `Split` runs a
+branch of type "sequence" once per buffer.  The element objects keep their state between these
+runs.  A run that is repeated is described by the inputs of the earlier (completed) runs of the
+same object, `past`: a stateful element's `run` is a function of `past` and of the current input
+(`Count.run` adds the lengths, an accumulator behind `adapters.Run` has been filled with all past
+values).  After an exception nothing is run again, so `past` only holds runs that completed. -/
+
+/-- the inputs `seq.run([val])` of the selected values among `vals` -/
+def selectedOf (select : α → Except Exc Bool) (vals : List α) : List (Strm α) :=
+  vals.filterMap (fun v => match select v with | .ok true => some (.ofList [v]) | _ => none)
+
+/-- the loop of `RunIf.run` with the inner sequence's earlier inputs `past` -/
+def runIfGo (select : α → Except Exc Bool) (inner : List (Strm α) → Stage α) (t : Option Exc) :
+    List (Strm α) → List α → Strm α
+  | _, [] => ⟨[], t⟩
+  | past, v :: vs =>
+    match select v with
+    | .error e => .fail e
+    | .ok true =>
+      (observe (inner past (.ofList [v]))).andThen (runIfGo select inner t (past ++ [.ofList [v]]) vs)
+    | .ok false => (Strm.ofList [v]).andThen (runIfGo select inner t past vs)
+
+/-- `RunIf.run(flow)` on an object whose `run` was called before on the flows `pastR` -/
+def runIfH (select : α → Except Exc Bool) (inner : List (Strm α) → Stage α) (pastR : List (Strm α))
+    (s : Strm α) : Strm α :=
+  runIfGo select inner s.term (pastR.flatMap (fun p => selectedOf select p.vals)) s.vals
+
+/-- a sequence of `Split` as `Split.run` uses it -/
+inductive Branch (α : Type) where
+  /-- type "sequence": `seq.run(buf)` for every buffer; `rerun past` is that run after the runs on `past` -/
+  | seqB (rerun : List (Strm α) → Stage α)
+  /-- type "fill_compute" (`FillComputeSeq`): `pre v` are the values that `seq.fill(v)` fills into the
+  fill/compute element (through the `FillInto` chain before it), `fill h x` is that element's
+  `fill(x)` after the values `h`, `compute h` is `seq.compute()` drained (the element's `compute()`
+  run through the sequence after it) -/
+  | fcB (pre : α → Strm α) (fill : List α → α → Except Exc Unit) (compute : List α → Strm α)
+
+/-- `for val in …: el.fill(val)`; `h` = the values filled so far -/
+def fillMany (fill : List α → α → Except Exc Unit) : List α → List α → Except Exc (List α)
+  | h, [] => .ok h
+  | h, x :: xs =>
+    match fill h x with
+    | .error e => .error e
+    | .ok () => fillMany fill (h ++ [x]) xs
+
+/-- one pass of the `while ind < n_of_active_seqs` loop of `Split.run` over the buffer `buf`.
+`hists`: per branch the values filled into its fill/compute element so far (unused for sequence
+branches); `past`: the earlier buffers.  Returns what is yielded and the new `hists`; after an
+exception the rest does not matter. -/
+def bufPass (past : List (Strm α)) (buf : List α) : List (Branch α) → List (List α) → Strm α × List (List α)
+  | [], _ => (.nil, [])
+  | b :: bs, hs =>
+    let h := hs.headD []
+    match b with
+    | .seqB rerun =>
+      let o := observe (rerun past (.ofList buf))
+      match o.term with
+      | some _ => (o, hs)
+      | none =>
+        let (o', hs') := bufPass past buf bs hs.tail
+        (o.andThen o', h :: hs')
+    | .fcB pre fill _ =>
+      let reach := bindS pre (.ofList buf)
+      match fillMany fill h reach.vals with
+      | .error e => (.fail e, hs)
+      | .ok h' =>
+        match reach.term with
+        | some e => (.fail e, hs)
+        | none =>
+          let (o', hs') := bufPass past buf bs hs.tail
+          (o', h' :: hs')
+
+/-- the `while True` loop for `bufsize = b ≥ 1`; fuel = number of values left + 1 -/
+def splitLoopH (brs : List (Branch α)) (b : Nat) (t : Option Exc) :
+    Nat → List (Strm α) → List (List α) → List α → Strm α × List (List α)
+  | 0, _, hs, _ => (.nil, hs)
+  | fuel + 1, past, hs, xs =>
+    if xs.length < b then
+      match t with
+      | some e => (.fail e, hs)
+      | none => if xs.isEmpty then (.nil, hs) else bufPass past xs brs hs
+    else
+      let (o, hs') := bufPass past (xs.take b) brs hs
+      match o.term with
+      | some _ => (o, hs')
+      | none =>
+        let (o', hs'') := splitLoopH brs b t fuel (past ++ [.ofList (xs.take b)]) hs' (xs.drop b)
+        (o.andThen o', hs'')
+
+/-- the loop after the flow is exhausted: `compute()` of the fill/compute sequences, `run([])` of the
+sequences if the flow was empty -/
+def finalPass (flowWasEmpty : Bool) (past : List (Strm α)) : List (Branch α) → List (List α) → Strm α
+  | [], _ => .nil
+  | b :: bs, hs =>
+    match b with
+    | .seqB rerun =>
+      if flowWasEmpty then
+        (observe (rerun past (.ofList []))).andThen (finalPass flowWasEmpty past bs hs.tail)
+      else finalPass flowWasEmpty past bs hs.tail
+    | .fcB _ _ compute => (compute (hs.headD [])).andThen (finalPass flowWasEmpty past bs hs.tail)
+
+/-- `Split(seqs, bufsize).run(flow)` for sequences of type "sequence" and "fill_compute", on an
+object whose branches were run before on the buffers `past0` and whose fill/compute elements hold
+`hists0`.  `Split([])` is `_empty_run`. -/
+def splitH (brs : List (Branch α)) (bufsize : Option Nat) (past0 : List (Strm α)) (hists0 : List (List α))
+    (s : Strm α) : Strm α :=
+  if brs.isEmpty then s
+  else
+    match bufsize with
+    | none =>
+      match s.term with
+      | some e => .fail e
+      | none =>
+        if s.vals.isEmpty then finalPass true past0 brs hists0
+        else
+          let (o, hs) := bufPass past0 s.vals brs hists0
+          match o.term with
+          | some _ => o
+          | none => o.andThen (finalPass false past0 brs hs)
+    | some b =>
+      let (o, hs) := splitLoopH brs b s.term (s.vals.length + 1) past0 hists0 s.vals
+      match o.term with
+      | some _ => o
+      | none => o.andThen (finalPass s.vals.isEmpty past0 brs hs)
+
+/-- the buffers an earlier `Split.run(flow)` gave to its sequence branches (`[]` once for an empty flow) -/
+def bufsOf (bufsize : Option Nat) (vals : List α) : List (Strm α) :=
+  if vals.isEmpty then [.ofList []]
+  else (chunks bufsize vals).map Strm.ofList
+
+/-- the values in the fill/compute elements of the branches after the values `vals` went through `Split` -/
+def histsOf (brs : List (Branch α)) (vals : List α) : List (List α) :=
+  brs.map fun
+    | .seqB _ => []
+    | .fcB pre _ _ => (bindS pre (.ofList vals)).vals
+
+/-- `Split.run(flow)` on an object that was run before on the flows `pastS` -/
+def splitRerun (brs : List (Branch α)) (bufsize : Option Nat) (pastS : List (Strm α)) (s : Strm α) : Strm α :=
+  splitH brs bufsize (pastS.flatMap (fun p => bufsOf bufsize p.vals))
+    (histsOf brs (pastS.flatMap (·.vals))) s
+
+/-- `Split._fill(val)` when every sequence has type "fill_compute" (`h` = values filled so far) -/
+def splitFill : List (Branch α) → List α → α → Except Exc Unit
+  | [], _, _ => .ok ()
+  | .seqB _ :: bs, h, v => splitFill bs h v
+  | .fcB pre fill _ :: bs, h, v =>
+    let reach := pre v
+    match fillMany fill (bindS pre (.ofList h)).vals reach.vals with
+    | .error e => .error e
+    | .ok _ =>
+      match reach.term with
+      | some e => .error e
+      | none => splitFill bs h v
+
+/-- `Split._compute()` drained -/
+def splitCompute : List (Branch α) → List α → Strm α
+  | [], _ => .nil
+  | .seqB _ :: bs, h => splitCompute bs h
+  | .fcB pre _ compute :: bs, h => (compute (bindS pre (.ofList h)).vals).andThen (splitCompute bs h)
+
+def Branch.isFc : Branch α → Bool
+  | .fcB .. => true
+  | .seqB _ => false
+
 end generic
 
 /-! ## `Count.run` on values with context -/
@@ -240,5 +404,73 @@ def countS (name : String) (count0 : Int) (s : Strm Value) : Strm Value :=
     | none =>
       let (d, c) := getDataContext last
       ⟨ys ++ [.tup [d, .dict (dictSet c name (.int (count0 + count)))]], none⟩
+
+/-! ## accumulators whose total can be a float
+
+`Mean.compute` yields `float(sum)/float(count)` (`Value.quot`).  When such a value is filled into a
+`Sum` or `Mean` that holds nothing yet, `0 + f` and `f / 1.0` are exact and the model keeps the
+pair; any other arithmetic with a float gives *some* float, `quot 0 0`, whose value the model does
+not compute (the check accepts any float there). -/
+
+/-- state of `Sum`/`Mean`/`StoreFilled`/`Count` as accumulators; `fl` is the float in `_total`/`_sum`
+when it is one -/
+structure QState where
+  base : AccState := {}
+  fl : Option (Int × Int) := none
+  deriving Repr
+
+/-- some float -/
+def floatUnknown : Int × Int := (0, 0)
+
+/-- `self._total += data` -/
+def addNum (s : QState) (d : Value) : Option QState :=
+  match d with
+  | .int i =>
+    match s.fl with
+    | none => some { s with base := { s.base with total := s.base.total + i } }
+    | some q => some { s with fl := some (if i = 0 then q else floatUnknown) }
+  | .quot n d =>
+    match s.fl with
+    | none => some { s with fl := some (if s.base.total = 0 then (n, d) else floatUnknown) }
+    | some _ => some { s with fl := some floatUnknown }
+  | _ => none
+
+def accFillQ (k : AccKind) (s : QState) (v : Value) : Except Exc QState :=
+  match k with
+  | .sum =>
+    let (d, c) := getDataContext v
+    match addNum s d with
+    | none => .error .typeError
+    | some s' => .ok { s' with base := { s'.base with ctx := c } }
+  | .mean =>
+    let (d, c) := getDataContext v
+    match addNum s d with
+    | none => .error .typeError
+    | some s' => .ok { s' with base := { s'.base with ctx := c, count := s'.base.count + 1 } }
+  | .store _ => .ok { s with base := { s.base with group := s.base.group ++ [v] } }
+  | .count _ => .ok { s with base := { s.base with count := s.base.count + 1, ctx := getContext v } }
+
+def accComputeQ (k : AccKind) (s : QState) : Except Exc (List Value) :=
+  match k with
+  | .sum =>
+    let total : Value := match s.fl with
+      | none => .int s.base.total
+      | some (n, d) => .quot n d
+    .ok [maybeWithContext total s.base.ctx]
+  | .mean =>
+    if s.base.count = 0 then .error .lenaZeroDivisionError
+    else
+      let mean : Value := match s.fl with
+        | none => .quot s.base.total s.base.count
+        | some (n, d) => if s.base.count = 1 then .quot n d else .quot 0 0
+      .ok [maybeWithContext mean s.base.ctx]
+  | k => accCompute k s.base
+
+def accOfQ (k : AccKind) : Acc QState Value :=
+  { init := {}, fill := accFillQ k, compute := accComputeQ k }
+
+/-- an element object as a value in a flow (what iterating a `Sequence` yields): only its class name
+is observed -/
+def objValue (cls : String) : Value := .str ("<obj:" ++ cls ++ ">")
 
 end Lena.C01
